@@ -56,6 +56,10 @@ def _make_vals_from_deltas(init_val: float, deltas: pd.DataFrame):
 class Stairs:
 
     class_name = "Stairs"
+    # numpy scalars on the left of an operator must defer to the reflected Stairs
+    # method instead of treating the Stairs as an array element (np.float64(1) < s
+    # would otherwise evaluate bool(...) and return a numpy bool)
+    __array_ufunc__ = None
 
     @Appender(docstrings.Stairs_docstring, join="\n", indents=2)
     def __init__(
